@@ -5,12 +5,14 @@
 (*                                                                         *)
 (* A trace is [cfg |-> [n, implicit, tab, ihits], ev |-> <<event, ...>>];  *)
 (* an event is                                                             *)
-(*   [ev |-> "Add"|"Remove"|"Check"|"Load"|"Refused"|"Raised",             *)
+(*   [ev |-> "Add"|"Remove"|"Check"|"Load"|"Elsewhere"|"Refused"|"Raised", *)
 (*    pos, rule,            \* Add / Remove: the position and rule ASKED for*)
 (*    es,                   \* Load: <<[pos, r], ...>> asked for            *)
 (*    pkt, permit, decider, \* Check: the packet, the verdict returned      *)
 (*    tab, ihits]           \* the list READ FROM THE OBJECT after the call *)
-(* (unused fields carry 0 / NoRule / <<>> / a dummy packet).  `tab' is      *)
+(* (unused fields carry 0 / NoRule / <<>> / a dummy packet; "Elsewhere" =   *)
+(* an operation was applied to a sibling list, e.g. another of the six      *)
+(* lists of the same firewall).  `tab' is                                   *)
 (* sparse: <<[pos, r, h], ...>> for the occupied positions, h = the rule's  *)
 (* hit counter; `ihits' the implicit rule's counter.  Positions are the     *)
 (* real 0-based positions; addresses / masks are the model's small          *)
@@ -58,15 +60,18 @@ Clauses(e) ==
       \* scenario loading = adding every listed rule at its position
       LoadStoresRules       |-> (e.ev = "Load" /\ EsPos(e.es) \subseteq Pos) =>
                                    \A k \in DOMAIN e.es : a2[e.es[k].pos] = e.es[k].r,
-      LoadOnlyAtPositions   |-> e.ev = "Load" => OnlyPositions(EsPos(e.es), a2, h2, e.ihits)
+      LoadOnlyAtPositions   |-> e.ev = "Load" => OnlyPositions(EsPos(e.es), a2, h2, e.ihits),
+      \* operations on another list change no position (and no counter) of this one
+      OtherListsUntouched   |-> e.ev = "Elsewhere" => OnlyPositions({}, a2, h2, e.ihits)
     ]
-Failing(e) == {c \in DOMAIN Clauses(e) : ~Clauses(e)[c]}
+Failing(e) == LET C == Clauses(e) IN {c \in DOMAIN C : ~C[c]}
 
 Step(e) ==
     LET h2 == DenseHits(e.tab, npos) IN
     CASE e.ev = "Add"    -> Add(e.pos, e.rule, h2[e.pos])
       [] e.ev = "Remove" -> Remove(e.pos)
       [] e.ev = "Check"  -> Check(e.pkt)
+      [] e.ev = "Elsewhere" -> Elsewhere
       [] e.ev = "Load"   -> Load([k \in DOMAIN e.es |-> [pos |-> e.es[k].pos, r |-> e.es[k].r, h |-> h2[e.es[k].pos]]])
       [] OTHER -> FALSE
 
